@@ -496,9 +496,12 @@ func init() {
 			nProg, nLay = 400, 64
 		}
 		var coq []*parseCase
-		for i := 0; i < nProg; i++ {
+		for i := 0; i < nProg+len(c09Fixed); i++ {
 			p := genProgramText(rng, sum.Distribution)
-			if i%2 == 0 {
+			if i >= nProg {
+				// shapes the random programs reach only now and then; every layout is applied to them
+				p = c09Fixed[i-nProg]
+			} else if i%2 == 0 {
 				// "the tree reflects the program": a structured program whose meaning is
 				// known from its construction is parsed, decoded, and must behave as written
 				c := refCase(rng, rgenOpts{conds: true, switches: true, cloops: true, rloops: true, signals: true}, sum.Distribution, "reference")
@@ -548,6 +551,14 @@ func init() {
 		}
 		return sum, nil
 	}
+}
+
+var c09Fixed = []string{
+	"obj.Name = jso.a == 1 ? jso.{b|c} : jso.d\nobj.Id = jso.{x|y} != 2 ? jso.e : jso.o.{k|l}\nts.S = isTrue(jso.t) ? jso.{b|c} : jso.d\n",
+	"obj.Id = jso.{a|b}|default(\"z\")|upper()\nprobe(jso.{a|b}, \"x\", jso.o.{k|l})\nobj.Name = jso.s|ifThenElse(jso.{a|b}, \"n\")\nctx.v = jso.{a|b} as static\nctx.w = jso.o.(vector)\n",
+	"for k, v := range jso.list {\nif v.{a|b} == 1 {\nobj.Id = v.{a|b}\n} else {\nprobe(k, v.{c|d})\n}\n}\nfor i := 0; i <= jso.lim; i++ {\nobj.Status = i\n}\nfor _, w := range st.Finance.History {\nprobe(w.DateUnix)\n}\n",
+	"switch {\ncase 4 == jso.x:\nprobe(1)\ncase jso.y >= \"a b\":\nprobe(2)\ncase isTrue(jso.{p|q}):\nprobe(3)\ndefault:\nprobe(4)\n}\nswitch jso.k {\ncase 'q':\nprobe(5)\ncase jso.z:\nbreak\n}\n",
+	"if v, ok := okh(jso.a, \"lit\"); ok {\nobj.Id = v\n} else {\nlazybreak 2\n}\nif x, y := nokh(); !y {\ncontinue\n}\nif 5 <= jso.n {\nbreak 3\n}\nobj.Finance.History[1].Comment = atoi(\"12\")\n",
 }
 
 // compactLine removes the optional blanks around =, ==, !=, >=, <=, >, <, :=, ','
